@@ -33,45 +33,47 @@ CLAIMED = {
                 "delay boundary) is checked exhaustively by TLC including the liveness property 'close() unblocks' under "
                 "fairness; the real DelayedQueue runs on a virtual clock under the deterministic scheduler (all sequential "
                 "words, bounded-preemption DFS on concurrent programs incl. a clock thread, random programs) and TLC "
-                "validates every call/return/tick trace against the most permissive C17-object (DelayedQueueTrace.tla).",
+                "validates every call/return/tick trace against the most permissive C17-object (DelayedQueueTrace.tla); a transition "
+                "cover of the model's dumped state graph is replayed action by action on the real queue with the state compared "
+                "after every action (spec -> code).",
         "note": "Trusted: detsched shims (threading, time). Time is virtual and integral; 'never early' is judged on the "
                 "shim clock the library itself reads. Bounded: programs of <=7 operations, preemption bound 2 / 3.",
-        "technique": "TLA+ model checking (TLC, safety + liveness) + trace validation of real executions",
+        "technique": "TLA+ model checking (TLC, safety + liveness) + trace validation of real executions + spec-to-code replay",
     },
     "C04": {
         "engine": "observer",
         "design_ref": "DESIGN.md §4.3, §7 C04",
         "text": 'Observer.tla (registry under a re-entrant lock, emitter threads, dispatcher with copied handler set and membership re-check, API calls as their real step sequences, callbacks calling the API re-entrantly) is model-checked exhaustively by TLC for the dispatch/callback program families; the real BaseObserver runs under the deterministic scheduler (bounded-preemption DFS on the delivery/removal families, random programs) and TLC validates every black-box trace (call/ret, queued, cb, quiescent) against ObserverTrace.tla: a reference dispatcher that snapshots the handler set when it takes an event and must call each snapshot member exactly once, in queue order, with linearization points left to TLC.',
         "note": 'Trusted: detsched shims; scripted emitters and recording handlers are harness-side subclasses of the public EventEmitter / FileSystemEventHandler. Bounded: <=2 application threads, <=3 handlers, 2 watches, <=3 events per emitter, preemption bound 1 (quick) / 2 (thorough). Clauses owned by a sibling property are left to its check.',
-        "technique": "TLA+ model checking (TLC, safety + liveness) + trace validation of real executions under a deterministic scheduler",
+        "technique": "TLA+ model checking (TLC, safety + liveness) + trace validation of real executions under a deterministic scheduler + spec-to-code replay of Observer.tla walks on the real BaseObserver",
     },
     "C05": {
         "engine": "observer",
         "design_ref": "DESIGN.md §4.3, §7 C05",
         "text": 'Same model and engine as C04; program family: removal by another thread and re-entrantly from a callback at every position of a 3-event stream, unschedule/unschedule_all/stop. ObserverTrace.tla bans a (handler, watch) pair at the return of the removing call (unless a registering call is in flight) and silences the emitters it removed; a callback or queued event after that is unexplainable. Observer.tla carries C05_NoCallAfterReturn / C05_EmitterStoppedOnReturn, checked by TLC.',
         "note": 'Trusted: detsched shims; scripted emitters and recording handlers are harness-side subclasses of the public EventEmitter / FileSystemEventHandler. Bounded: <=2 application threads, <=3 handlers, 2 watches, <=3 events per emitter, preemption bound 1 (quick) / 2 (thorough). Clauses owned by a sibling property are left to its check.',
-        "technique": "TLA+ model checking (TLC, safety + liveness) + trace validation of real executions under a deterministic scheduler",
+        "technique": "TLA+ model checking (TLC, safety + liveness) + trace validation of real executions under a deterministic scheduler + spec-to-code replay of Observer.tla walks on the real BaseObserver",
     },
     "C06": {
         "engine": "observer",
         "design_ref": "DESIGN.md §4.3, §7 C06",
         "text": "Observer.tla is checked by TLC for deadlock freedom (explicit terminal stutter), for 'no library thread left after stop()+join()' and for the liveness property C06_StopTerminates under weak fairness; the real BaseObserver runs all lifecycle programs (start/schedule/unschedule/unschedule_all/stop twice/join from two threads and from callbacks) under bounded-preemption DFS; the scheduler's exact deadlock detection and the thread table after join() are trace lines judged by ObserverTrace.tla.",
         "note": 'Trusted: detsched shims; scripted emitters and recording handlers are harness-side subclasses of the public EventEmitter / FileSystemEventHandler. Bounded: <=2 application threads, <=3 handlers, 2 watches, <=3 events per emitter, preemption bound 1 (quick) / 2 (thorough). Clauses owned by a sibling property are left to its check.',
-        "technique": "TLA+ model checking (TLC, safety + liveness) + trace validation of real executions under a deterministic scheduler",
+        "technique": "TLA+ model checking (TLC, safety + liveness) + trace validation of real executions under a deterministic scheduler + spec-to-code replay of Observer.tla walks on the real BaseObserver",
     },
     "C13": {
         "engine": "observer",
         "design_ref": "DESIGN.md §4.3, §7 C13",
         "text": 'Every sequentially valid API call sequence up to length 3 (quick) / 4 (thorough) over 2 watches x 2 handlers is executed on the real observer with a black-box probe after every call (observer.emitters, is_alive(), marker-event routes through the public dispatch_events) and compared by TLC with the reference map of ObserverTrace.tla; schedule() failures (emitter cannot be created / started) at every position; schedule racing with start under DFS. Observer.tla carries C13_RegistryIsMap / C13_NoStaleHandlers / C13_EveryScheduledWatchRuns; the two repaired defects, switched back on, are required to violate them (non-vacuity).',
         "note": 'Trusted: detsched shims; scripted emitters and recording handlers are harness-side subclasses of the public EventEmitter / FileSystemEventHandler. Bounded: <=2 application threads, <=3 handlers, 2 watches, <=3 events per emitter, preemption bound 1 (quick) / 2 (thorough). Clauses owned by a sibling property are left to its check.',
-        "technique": "TLA+ model checking (TLC, safety + liveness) + trace validation of real executions under a deterministic scheduler",
+        "technique": "TLA+ model checking (TLC, safety + liveness) + trace validation of real executions under a deterministic scheduler + spec-to-code replay of Observer.tla walks on the real BaseObserver",
     },
     "C12": {
         "engine": "fd",
         "design_ref": "DESIGN.md §4.4, §5.3, §7 C12",
         "text": "InotifyFd.tla (constructor with a failing kernel call at every position, reader loop, close() hand-over decided by is_reading under the lock, several closers) is checked exhaustively by TLC incl. liveness (reader exits after stop); the three repaired defects (D1 constructor leak, D2 initial is_reading, D13 add_watch after close) switched back on must violate their invariants. The real Inotify / InotifyBuffer / InotifyObserver run on a real scratch directory with the OS seam (descriptor shadow table, fault directives at the ctypes boundary) under the deterministic scheduler: one program per (kernel call position x errno x level), bounded-preemption DFS of close() against the read loop, random + PCT schedules on the deeper stacks; TLC validates every sys-call trace against the per-descriptor state machine of InotifyFdTrace.tla; plus real-thread, real-kernel schedule/start/stop cycles comparing /proc/self/fd and threading.enumerate().",
         "note": "Trusted: the seam sees every descriptor the library obtains (inotify_init, os.pipe); injected errno values are what the kernel would return. Bounded: trees of 1-4 directories, <=2 closers, preemption bound 2 (quick) / 3 (thorough) at the Inotify level, sampled schedules above it.",
-        "technique": "TLA+ model checking (TLC, safety + liveness) + fault enumeration at the OS seam + trace validation of real executions",
+        "technique": "TLA+ model checking (TLC, safety + liveness) + fault enumeration at the OS seam + trace validation of real executions + spec-to-code replay of InotifyFd.tla walks on the real InotifyBuffer",
     },
     "C09": {
         "engine": "function",
@@ -92,7 +94,7 @@ CLAIMED = {
         "design_ref": "DESIGN.md §4.5, §7 C14",
         "text": "SubEvents.tla defines the synthetic moved / created events over name sequences (prefix rewrite) and, separately, the textual str.replace rewrite the code used (Dev_TextualReplace); TLC checks the C14 laws over all trees of the {r,x,y} universe x all (src, dst) pairs (thorough: 43,785 trees) and proves that the deviation differs exactly when the destination string re-occurs; the negative config (deviation switched on) must be refuted. Every case is materialised on disk (relative/absolute x str/bytes, colliding name universes, the scratch root's own components repeated below the destination, random trees), the real generate_sub_moved_events / generate_sub_created_events are called, results are projected byte-exactly to name sequences and validated by TLC against SubEventsTrace.tla (one per descendant, destination real, source = old prefix + same relative path, flavour, parents first, synthetic).",
         "note": "Trusted: projection (strip root spelling, split on os.sep, exact byte lookup in the case's name table). Exhaustive over the enumerated universes (state count cross-checked between TLC and the Python enumeration).",
-        "technique": 'TLA+ model checking (TLC) over all trees x pairs + law monitors (TLC) over outputs of the real generators',
+        "technique": 'TLA+ model checking (TLC) over all trees x pairs + law monitors (TLC) over outputs of the real generators + PipelineTrace.tla C14 clauses over directory renames on the real inotify observer',
     },
     "C01": {
         "engine": "pipeline",
